@@ -215,9 +215,14 @@ func junkRec(kind string, num int) trace.Ev {
 
 // answer mirrors PeerAnswer of Sync.tla. It returns the Fetch event and the wire action.
 func (p *fakePeer) answer(n int) (ev trace.Ev, items []item, wire string) {
-	if p.f.kind == "flood" {
-		// batches of 1024 well-formed, correctly numbered blocks nobody can import (their ancestry is unknown)
-		for h := n; h-p.sc.A-1 < len(p.sc.flood) && len(items) < proto.MaxBlocksFromNumber && h > p.sc.A; h++ {
+	if strings.HasPrefix(p.f.kind, "flood") {
+		// batches of well-formed, correctly numbered blocks nobody can import (their ancestry is unknown): "flood" 1024 per
+		// batch, "flood-*" one per batch (many more batches than the rawBatches channel holds)
+		per := proto.MaxBlocksFromNumber
+		if p.f.kind != "flood" {
+			per = 1
+		}
+		for h := n; h-p.sc.A-1 < len(p.sc.flood) && len(items) < per && h > p.sc.A; h++ {
 			items = append(items, p.sc.flood[h-p.sc.A-1])
 		}
 		recs := []trace.Ev{}
@@ -721,8 +726,8 @@ func (e *env) emitDownload(sc *scenario, peer string, f fault, batch int, flog *
 	if sc.R-sc.A > 40 {
 		sched = "eager" // see Trace_Sync.tla: one canonical interleaving of the silent steps for long chains
 	}
-	if f.kind == "flood" {
-		sched = "late" // the importer starts when fetcher and decoder have come to rest
+	if strings.HasPrefix(f.kind, "flood") {
+		sched = "late" // the answers first (the fetcher runs ahead), then decoder, then importer
 	}
 	locals := []trace.Ev{}
 	for _, b := range sc.local {
@@ -916,6 +921,26 @@ func (e *env) bigCases(deep bool) []dlResult {
 			"kind": "ok", "score": 0, "ord": 0}})
 	}
 	out = append(out, e.runDownload(fsc, "scripted", fault{"flood", fsc.A + 1, 0}, proto.MaxBlocksFromNumber, nil, 9300))
+	// a stage aborts while the peer still has far more batches than the rawBatches channel holds (10): 16 one-block batches,
+	// the first block is not a block (decoder aborts) / has no known parent (importer aborts). The fetcher has to give up
+	// with the group, wherever it is blocked - download must return
+	for i, kind := range []string{"flood-badblock", "flood-orphan"} {
+		bsc := e.newScenario(1, 2, 3, false)
+		bsc.label = "manybatches-A1-H2"
+		for k := 0; k < 16; k++ {
+			n := bsc.A + 1 + k
+			b := new(block.Builder).ParentID(fakeID(n - 1)).Timestamp(uint64(n)).GasLimit(10_000_000).Build()
+			it := item{rawOf(b), trace.Ev{"id": fmt.Sprintf("m%d", n), "num": n, "parent": fmt.Sprintf("m%d", n-1),
+				"kind": "ok", "score": 0, "ord": 0}}
+			if k == 0 && kind == "flood-badblock" {
+				raw, err := rlp.EncodeToBytes("not a block")
+				must(err)
+				it = item{raw, junkRec("struct", n)}
+			}
+			bsc.flood = append(bsc.flood, it)
+		}
+		out = append(out, e.runDownload(bsc, "scripted", fault{kind, bsc.A + 1, 0}, 1, nil, 9310+i))
+	}
 
 	// a peer that lies about its block ids during the ancestor search (all / none / non-monotone / random answers), answers
 	// with garbage or hangs up in the middle of it; its blocks are honest
